@@ -436,13 +436,13 @@ def stream_approx(ctx, corr_failures):
         {"op": "approx", "dgms": [[[0.1, 0.7], [0.2, 0.9]]], "hom_deg": 0, "start": 0.0, "stop": 1.0, "n": 11, "kind": "corpus", "exact": False},
     ]
     cases = list(corpus)
-    for _ in range(ctx.n(2200, 9000)):
+    for _ in range(ctx.n(1500, 9000)):
         cases.append(gen_generic(ctx))
-    for _ in range(ctx.n(2200, 9000)):
+    for _ in range(ctx.n(1500, 9000)):
         cases.append(gen_exact(ctx))
     for _ in range(ctx.n(40, 200)):
         cases.append(gen_malformed(ctx))
-    for _ in range(ctx.n(400, 3000)):
+    for _ in range(ctx.n(300, 3000)):
         cases.append(gen_stress(ctx))
     answers = ask([approx_line(c) for c in cases])
     for c, ans in zip(cases, answers):
@@ -466,7 +466,7 @@ def stream_approx(ctx, corr_failures):
 def stream_transform(ctx, corr_failures):
     r = ctx.rng
     cases = []
-    for i in range(ctx.n(900, 4000)):
+    for i in range(ctx.n(600, 4000)):
         c = gen_exact(ctx) if i % 2 else gen_generic(ctx)
         c["dgms"] = [finite_bars(d) for d in c["dgms"]]
         if r.random() < 0.05:
@@ -535,7 +535,7 @@ def stream_vectorize(ctx, corr_failures):
     r = ctx.rng
     PLE = common.pm("landscapes.exact").PersLandscapeExact
     cases = []
-    for i in range(ctx.n(900, 4000)):
+    for i in range(ctx.n(600, 4000)):
         if i % 3 == 2:
             cps, src = synth_cps(ctx), "synthetic"
         else:
@@ -599,7 +599,7 @@ def stream_vectorize(ctx, corr_failures):
 def stream_death(ctx, corr_failures):
     r = ctx.rng
     cases = []
-    for _ in range(ctx.n(600, 3000)):
+    for _ in range(ctx.n(400, 3000)):
         dgms = gen_dgms(ctx, ctx.n(10, 40), inf_p=0.5)
         hd = 0 if r.random() < 0.9 else r.randint(1, 2)
         cases.append({"op": "death", "dgms": dgms, "hom_deg": hd})
